@@ -207,11 +207,22 @@ def harness_names():
     return [l for l in out.splitlines() if l.startswith('name ') or l.startswith('sname ')]
 
 
-def run_harness(lines, extra_args=None):
+HARNESS_BIN_NOMMAP = os.path.join(CACHE, 'target-nommap', 'debug', 'epsh')
+
+
+def harness_build_nommap():
+    """the same harness (same generated module) against epserde built without the mmap feature"""
+    e = env_offline()
+    e['CARGO_TARGET_DIR'] = os.path.join(CACHE, 'target-nommap')
+    rc, out, err = run(['cargo', 'build', '--offline', '--no-default-features'], cwd=HARNESS, timeout=3600, env=e)
+    return rc == 0, out + err
+
+
+def run_harness(lines, extra_args=None, binary=None):
     """run the harness on protocol lines; returns the list of answer lines (one per answering line).
     If the process dies (abort/segfault), the lines answered so far are returned followed by '<died rc>'."""
     inp = '\n'.join(lines) + '\n'
-    p = subprocess.run([HARNESS_BIN] + (extra_args or []), input=inp, capture_output=True, text=True, timeout=3600)
+    p = subprocess.run([binary or HARNESS_BIN] + (extra_args or []), input=inp, capture_output=True, text=True, timeout=3600)
     out = p.stdout.splitlines()
     if p.returncode != 0:
         out.append('<died rc=%d %s>' % (p.returncode, p.stderr.strip()[-200:]))
